@@ -261,6 +261,26 @@ def dump_netlist(nl):
     return out
 
 
+def hierarchy_is_cyclic(dump):
+    """some model (transitively) instances itself: get_hinstances / the composer do not terminate"""
+    if 'error' in dump:
+        return False
+    graph = {n: set(i['ref'] for i in m['insts']) for n, m in dump['models'].items()}
+    state = {}
+
+    def visit(n):
+        if state.get(n) == 1:
+            return True
+        if state.get(n) == 2 or n not in graph:
+            return False
+        state[n] = 1
+        if any(visit(r) for r in graph[n]):
+            return True
+        state[n] = 2
+        return False
+    return any(visit(n) for n in graph)
+
+
 def normalise_model_dump(j):
     """the model prints orphans as sorted JSON fragments; bring both to comparable Python values"""
     if 'error' in j:
